@@ -91,3 +91,11 @@ Print Assumptions C05_thread_bounds.
 Print Assumptions C05_many_allocations_alive.
 Print Assumptions C05_idle_arena_moves_to_thread.
 Print Assumptions C05_each_fact_needed.
+
+(* the unsafe auto-trait impls of the source are exactly the ones accounted for, with their bounds
+   (pinned as text, re-read from /repo on every run; a changed bound or a new impl fails here) *)
+From BV Require Import RustSem LeafActual AutoTraitsOk.
+Theorem C05_source_auto_trait_impls :
+  forallb snd src_auto_trait_impls = true /\ List.length src_auto_trait_impls = 9%nat.
+Proof. exact src_auto_trait_impls_ok. Qed.
+Print Assumptions C05_source_auto_trait_impls.
